@@ -362,7 +362,7 @@ func init() {
 		Assume:      []string{"sleep() only called with tiny arguments; exec/run absent (restricted IO)"},
 		QuickCap:    100 * time.Second,
 		ThoroughCap: 20 * time.Minute,
-		HangLimit:   60 * time.Second,
+		HangLimit:   240 * time.Second,
 		TrackDeath:  true,
 		WorkerEnv:   []string{"GOMEMLIMIT=1GiB"},
 		Run:         runC07,
